@@ -301,4 +301,33 @@ theorem C18_failsafe_session_registered (unix control command failsafe stream : 
     Sess.wantsFailsafe (Sess.clientFlags unix control command failsafe stream) = failsafe := by
   cases unix <;> cases control <;> cases command <;> cases failsafe <;> cases stream <;> decide
 
+/-! ### the translator tie -/
+
+/-- TRANSLATION THEOREM: the table the translator produces from the source text of `InputState::try_from` on this run
+(`Consts.inputTable`, one row per match arm in source order: gates on the motion lock, the value expression of each axis
+with its deadbands and the halving under motion limiting, the actuator or straight-drive output, the state assignment and
+output of each button arm, the engine-speed steps and bounds), read with first-match semantics, computes `St.step` for
+EVERY interlock state and EVERY scancode (all axis values).  All theorems of this file about `St.step` are therefore
+statements about the function the source defines now. -/
+theorem C18_translation (s : St) (sc : Scancode) : stepT Consts.inputTable s sc = some (s.step sc) := by
+  have b1 : (Btn.released == Btn.pressed) = false := by decide
+  have b2 : (Btn.pressed == Btn.pressed) = true := by decide
+  obtain ⟨dl, ml, lm, rpm⟩ := s
+  cases sc with
+  | slew v => cases ml <;> cases lm <;> simp [stepT, Consts.inputTable, List.find?, rowMatches, Scancode.key, rowStep, axisValue, limited, Actuator.ofId?, Actuator.all, Actuator.id, St.step, change, Consts.actuatorBoom, Consts.actuatorArm, Consts.actuatorAttachment, Consts.actuatorSlew, Consts.actuatorLimpLeft, Consts.actuatorLimpRight]
+  | arm v => cases ml <;> cases lm <;> simp [stepT, Consts.inputTable, List.find?, rowMatches, Scancode.key, rowStep, axisValue, limited, Actuator.ofId?, Actuator.all, Actuator.id, St.step, change, Consts.actuatorBoom, Consts.actuatorArm, Consts.actuatorAttachment, Consts.actuatorSlew, Consts.actuatorLimpLeft, Consts.actuatorLimpRight]
+  | attachment v => cases ml <;> cases lm <;> simp [stepT, Consts.inputTable, List.find?, rowMatches, Scancode.key, rowStep, axisValue, limited, Actuator.ofId?, Actuator.all, Actuator.id, St.step, change, Consts.actuatorBoom, Consts.actuatorArm, Consts.actuatorAttachment, Consts.actuatorSlew, Consts.actuatorLimpLeft, Consts.actuatorLimpRight]
+  | boom v => cases ml <;> cases lm <;> simp [stepT, Consts.inputTable, List.find?, rowMatches, Scancode.key, rowStep, axisValue, limited, Actuator.ofId?, Actuator.all, Actuator.id, St.step, change, Consts.actuatorBoom, Consts.actuatorArm, Consts.actuatorAttachment, Consts.actuatorSlew, Consts.actuatorLimpLeft, Consts.actuatorLimpRight]
+  | leftTrack v => cases ml <;> cases dl <;> simp [stepT, Consts.inputTable, List.find?, rowMatches, Scancode.key, rowStep, axisValue, limited, Actuator.ofId?, Actuator.all, Actuator.id, St.step, change, Consts.actuatorBoom, Consts.actuatorArm, Consts.actuatorAttachment, Consts.actuatorSlew, Consts.actuatorLimpLeft, Consts.actuatorLimpRight]
+  | rightTrack v => cases ml <;> cases dl <;> simp [stepT, Consts.inputTable, List.find?, rowMatches, Scancode.key, rowStep, axisValue, limited, Actuator.ofId?, Actuator.all, Actuator.id, St.step, change, Consts.actuatorBoom, Consts.actuatorArm, Consts.actuatorAttachment, Consts.actuatorSlew, Consts.actuatorLimpLeft, Consts.actuatorLimpRight]
+  | abort b => cases b <;> simp [stepT, Consts.inputTable, List.find?, rowMatches, Scancode.key, rowStep, St.step, b1, b2]
+  | confirm b => cases b <;> simp [stepT, Consts.inputTable, List.find?, rowMatches, Scancode.key, St.step, b1, b2]
+  | driveLock b => cases b <;> simp [stepT, Consts.inputTable, List.find?, rowMatches, Scancode.key, rowStep, St.step, Consts.inputPowerNeutral, b1, b2]
+  | limitMotion b => cases b <;> simp [stepT, Consts.inputTable, List.find?, rowMatches, Scancode.key, rowStep, St.step, b1, b2]
+  | up b => cases b <;> cases ml <;> simp [stepT, Consts.inputTable, List.find?, rowMatches, Scancode.key, rowStep, St.step, clampRpm, Engine.fromRpm, b1, b2]
+  | down b =>
+    cases b
+    · by_cases h : rpm ≤ 900 <;> simp [stepT, Consts.inputTable, List.find?, rowMatches, Scancode.key, rowStep, St.step, clampRpm, Engine.fromRpm, h, b1, b2]
+    · simp [stepT, Consts.inputTable, List.find?, rowMatches, Scancode.key, St.step, b1, b2]
+
 end Glonax.Thm.C18
